@@ -39,7 +39,7 @@ Section Calls.
   | cq_here f l g s' n1 : answer_match_fast uf s (gn g) args (fargs f) = (UOk s', n1) ->
       cq args r s stk (f :: l) g (r, s', set_n g n1, (args, l) :: stk)
   | cq_later_ok f l g s' n1 g1 a1 t1 c : answer_match_fast uf s (gn g) args (fargs f) = (UOk s', n1) ->
-      rec r s' (set_n g n1) = Some (g1, a1, t1) -> cq args r s stk l g1 c -> cq args r s stk (f :: l) g c
+      rec r s' (set_n g n1) = Some (g1, a1, t1, None) -> cq args r s stk l g1 c -> cq args r s stk (f :: l) g c
   | cq_later_no f l g n1 c : answer_match_fast uf s (gn g) args (fargs f) = (UFail, n1) ->
       cq args r s stk l (set_n g n1) c -> cq args r s stk (f :: l) g c.
 
@@ -47,7 +47,7 @@ Section Calls.
   | cr_here f l g s' n1 : answer_match_fast uf s (gn g) args (fargs f) = (UOk s', n1) -> has_id (fid f) (gdb g k) = true ->
       cr k args r s stk (f :: l) g (r, s', mkg (upd k (del_id (fid f) (gdb g k)) (gdb g)) (gid g) n1 (gw g), (args, l) :: stk)
   | cr_later_ok f l g s' n1 g1 a1 t1 c : answer_match_fast uf s (gn g) args (fargs f) = (UOk s', n1) -> has_id (fid f) (gdb g k) = true ->
-      rec r s' (mkg (upd k (del_id (fid f) (gdb g k)) (gdb g)) (gid g) n1 (gw g)) = Some (g1, a1, t1) ->
+      rec r s' (mkg (upd k (del_id (fid f) (gdb g k)) (gdb g)) (gid g) n1 (gw g)) = Some (g1, a1, t1, None) ->
       cr k args r s stk l g1 c -> cr k args r s stk (f :: l) g c
   | cr_later_gone f l g s' n1 c : answer_match_fast uf s (gn g) args (fargs f) = (UOk s', n1) -> has_id (fid f) (gdb g k) = false ->
       cr k args r s stk l (set_n g n1) c -> cr k args r s stk (f :: l) g c
@@ -56,9 +56,9 @@ Section Calls.
 
   Inductive ct (args : list term) (r : list goal) (s : store) (stk : list sframe) : list clause -> glob -> cfg -> Prop :=
   | ct_here c cs g s' : unify_arrays_fast uf s args (map (shift (gn g)) (chead c)) = UOk s' ->
-      ct args r s stk (c :: cs) g (map (shift_goal (gn g)) (cbody c) ++ r, s', set_n g (gn g + cnv c), (args, []) :: stk)
+      ct args r s stk (c :: cs) g (map (shift_goal (gn g)) (cbody c) ++ GPop :: r, s', set_n g (gn g + cnv c), (args, []) :: stk)
   | ct_later_ok c cs g s' g1 a1 t1 x : unify_arrays_fast uf s args (map (shift (gn g)) (chead c)) = UOk s' ->
-      rec (map (shift_goal (gn g)) (cbody c) ++ r) s' (set_n g (gn g + cnv c)) = Some (g1, a1, t1) ->
+      rec (map (shift_goal (gn g)) (cbody c) ++ GPop :: r) s' (set_n g (gn g + cnv c)) = Some (g1, a1, t1, None) ->
       ct args r s stk cs g1 x -> ct args r s stk (c :: cs) g x
   | ct_later_no c cs g x : unify_arrays_fast uf s args (map (shift (gn g)) (chead c)) = UFail ->
       ct args r s stk cs (set_n g (gn g + cnv c)) x -> ct args r s stk (c :: cs) g x.
@@ -128,11 +128,11 @@ Section Calls.
       pose proof (stk_mono (grow_n F L) K) as K1;
       destruct (@head_step uf F g s args c _ I W G La Oc eq_refl) as [Po Lb]; rewrite U in Po.
     - destruct Po as [W' G']. exists F. split; [apply grow_n; exact L|]. split.
-      + constructor; simpl; auto. apply Forall_app. split; [exact Lb|apply C1].
+      + constructor; simpl; auto. apply Forall_app. split; [exact Lb|constructor; [exact Logic.I|apply C1]].
       + simpl. constructor; auto. split; simpl; [apply C1|constructor].
     - destruct Po as [W' G'].
-      assert (CI: cinv F (map (shift_goal (gn g)) (cbody c) ++ r) s' (set_n g (gn g + cnv c))).
-      { constructor; simpl; auto. apply Forall_app. split; [exact Lb|apply C1]. }
+      assert (CI: cinv F (map (shift_goal (gn g)) (cbody c) ++ GPop :: r) s' (set_n g (gn g + cnv c))).
+      { constructor; simpl; auto. apply Forall_app. split; [exact Lb|constructor; [exact Logic.I|apply C1]]. }
       destruct (Hrec CI ER) as [F1 [G1 I1']]. simpl in G1.
       destruct (IH F1 Ocs I1' (ctx_mono G1 C1) (stk_mono G1 K1)) as [F2 [G2 X]].
       exists F2. split; auto. eapply grow_trans; [apply grow_n; exact L|]. eapply grow_trans; eauto.
@@ -153,7 +153,7 @@ Section Visits.
       cq uf (solve uf prog n) args r s stk (gdb g (name, length args)) (tick g w) c ->
       calls n (GCall name args :: r, s, g, stk) c
   | c_call_clauses name args r s g w stk g1 a1 t1 c : gw g = S w ->
-      scanq uf (solve uf prog n) args r s (gdb g (name, length args)) (tick g w) = Some (g1, a1, t1) ->
+      scanq uf (solve uf prog n) args r s (gdb g (name, length args)) (tick g w) = Some (g1, a1, t1, None) ->
       ct uf (solve uf prog n) args r s stk (clauses_of prog name (length args)) g1 c ->
       calls n (GCall name args :: r, s, g, stk) c
   | c_assert_skip front t r s g w stk : gw g = S w -> callable (den_fast s t) = None ->
@@ -167,7 +167,22 @@ Section Visits.
       calls n (GRetract t :: r, s, g, stk) c
   | c_retractall t r s g w stk name args keep gone n1 : gw g = S w -> callable (den_fast s t) = Some (name, args) ->
       rallh uf s args (gdb g (name, length args)) (gn g) = Some (keep, gone, n1) ->
-      calls n (GRetractAll t :: r, s, g, stk) (r, s, mkg (upd (name, length args) keep (gdb g)) (gid g) n1 w, stk).
+      calls n (GRetractAll t :: r, s, g, stk) (r, s, mkg (upd (name, length args) keep (gdb g)) (gid g) n1 w, stk)
+  (* control: a cut, the end of a clause body and the end of a condition go on with the rest of the body; a
+     disjunction runs its left branch and - from the global state that run left, if it was not cut - its right
+     branch; an if-then-else runs condition + then branch and - if the condition did not commit - its else branch *)
+  | c_cut r s g w stk : gw g = S w -> calls n (GCut :: r, s, g, stk) (r, s, tick g w, stk)
+  | c_pop r s g w stk : gw g = S w -> calls n (GPop :: r, s, g, stk) (r, s, tick g w, stk)
+  | c_commit r s g w stk : gw g = S w -> calls n (GCommit :: r, s, g, stk) (r, s, tick g w, stk)
+  | c_or_left a b r s g w stk : gw g = S w -> calls n (GOr a b :: r, s, g, stk) (a ++ r, s, tick g w, stk)
+  | c_or_right a b r s g w stk g1 a1 t1 : gw g = S w ->
+      solve uf prog n (a ++ r) s (tick g w) = Some (g1, a1, t1, None) ->
+      calls n (GOr a b :: r, s, g, stk) (b ++ r, s, g1, stk)
+  | c_if_cond c t e r s g w stk : gw g = S w ->
+      calls n (GIf c t e :: r, s, g, stk) (c ++ GCommit :: t ++ r, s, tick g w, stk)
+  | c_if_else c t e r s g w stk g1 a1 t1 c1 : gw g = S w ->
+      solve uf prog n (c ++ GCommit :: t ++ r) s (tick g w) = Some (g1, a1, t1, c1) -> lv_if c1 = None ->
+      calls n (GIf c t e :: r, s, g, stk) (e ++ r, s, g1, stk).
 
   Inductive visits : nat -> cfg -> cfg -> Prop :=
   | v_here n c : visits n c c
@@ -181,10 +196,12 @@ Section Visits.
     pose proof (@solve_inv uf prog Hprog n) as Hrec.
     destruct 1 as [a b r s g w stk s' Ew U|name args r s g w stk c Ew Hq|name args r s g w stk g1 a1 t1 c Ew ES Ht
                   |front t r s g w stk Ew CA|front t r s g w stk name args stored n1 Ew CA AI|t r s g w stk name args c Ew CA Hr
-                  |t r s g w stk name args keep gone n1 Ew CA RA];
+                  |t r s g w stk name args keep gone n1 Ew CA RA
+                  |r s g w stk Ew|r s g w stk Ew|r s g w stk Ew|ga gb r s g w stk Ew|ga gb r s g w stk g1 a1 t1 Ew ES
+                  |gc gt ge r s g w stk Ew|gc gt ge r s g w stk g1 a1 t1 c1 Ew ES LV];
       intros F [CI K]; unfold cgs, cst, cg, cstk in CI, K; simpl in CI, K; unfold cg; simpl;
       apply (@cinv_tick F _ s g w) in CI; fold (tick g w) in CI;
-      pose proof CI as [I W G Lg]; inversion Lg as [|? ? Tg Lr]; subst; simpl in Tg.
+      pose proof CI as [I W G Lg]; inversion Lg as [|? ? Tg Lr]; subst; cbn [goal_in] in Tg.
     - destruct Tg as [Tx Ty]. rewrite unify_fast_eq in U.
       destruct (@unify_frame (Pc (gn g) F) uf s a b (good_closed G) Tx Ty) as [_ Po]. rewrite U in Po.
       destruct Po as [nw [-> Gn]]. destruct (unify_sound _ _ _ W U) as [W' _].
@@ -195,7 +212,7 @@ Section Visits.
       destruct (@cq_inv uf _ Hrec args r s stk _ _ _ Hq F I C K) as [F' [G' X]]. exists F'. split; auto.
     - assert (C: ctx F (gn (tick g w)) s args r (gdb g (name, length args))).
       { constructor; auto. apply Forall_forall. intros f Hf. eapply (gi_facts I); eauto. }
-      destruct (@scanq_inv uf _ Hrec args r s _ _ _ _ _ F I C ES) as [F1 [G1 I1]]. simpl in G1.
+      destruct (@scanq_inv uf _ Hrec args r s _ _ _ _ _ _ F I C ES) as [F1 [G1 I1]]. simpl in G1.
       assert (C1: ctx F1 (gn g1) s args r []) by (eapply ctx_mono; [exact G1|]; destruct C; constructor; auto).
       destruct (@ct_inv uf _ Hrec args r s stk _ _ _ Ht F1 (clauses_of_ok _ _ Hprog) I1 C1 (stk_mono G1 K)) as [F' [G' X]].
       exists F'. split; auto. eapply grow_trans; eauto.
@@ -223,6 +240,25 @@ Section Visits.
       exists F. split; [apply grow_n; exact L|]. split; simpl.
       + apply (@cinv_mono F (gn g) _ r s (tick g w)); [apply grow_n; exact L|reflexivity|exact I0|]. constructor; auto.
       + exact (stk_mono (grow_n F L) K).
+    - exists F. split; [apply grow_refl|]. split; simpl; auto. constructor; auto.
+    - exists F. split; [apply grow_refl|]. split; simpl; auto. constructor; auto.
+    - exists F. split; [apply grow_refl|]. split; simpl; auto. constructor; auto.
+    - rewrite !conj_all_Forall in Tg. destruct Tg as [Ta Tb].
+      exists F. split; [apply grow_refl|]. split; simpl; auto. constructor; auto. apply Forall_app. split; auto.
+    - rewrite !conj_all_Forall in Tg. destruct Tg as [Ta Tb].
+      assert (CIa: cinv F (ga ++ r) s (tick g w)) by (constructor; auto; apply Forall_app; split; auto).
+      destruct (Hrec _ _ _ _ _ _ _ _ CIa ES) as [F1 [G1 I1]]. exists F1. split; [exact G1|]. split; simpl.
+      + eapply (@cinv_mono F (gn (tick g w))); [exact G1|reflexivity|exact I1|]. constructor; auto. apply Forall_app. split; auto.
+      + exact (stk_mono G1 K).
+    - rewrite !conj_all_Forall in Tg. destruct Tg as [Tc [Tt Te]].
+      exists F. split; [apply grow_refl|]. split; simpl; auto. constructor; auto.
+      apply Forall_app. split; auto. constructor; [exact Logic.I|]. apply Forall_app. split; auto.
+    - rewrite !conj_all_Forall in Tg. destruct Tg as [Tc [Tt Te]].
+      assert (CIc: cinv F (gc ++ GCommit :: gt ++ r) s (tick g w)).
+      { constructor; auto. apply Forall_app. split; auto. constructor; [exact Logic.I|]. apply Forall_app. split; auto. }
+      destruct (Hrec _ _ _ _ _ _ _ _ CIc ES) as [F1 [G1 I1]]. exists F1. split; [exact G1|]. split; simpl.
+      + eapply (@cinv_mono F (gn (tick g w))); [exact G1|reflexivity|exact I1|]. constructor; auto. apply Forall_app. split; auto.
+      + exact (stk_mono G1 K).
   Qed.
 
   Theorem visits_inv n c c' : visits n c c' -> forall F, cfg_inv F c ->
@@ -240,21 +276,29 @@ End Visits.
 Definition live_fact (c : cfg) (f : fact) : Prop :=
   (exists k, In f (gdb (cg c) k)) \/ (exists fr, In fr (cstk c) /\ In f (snd fr)).
 
-Definition goal_terms (gl : goal) : list term :=
+(* all terms of a goal, those of the goals in its branches included *)
+Fixpoint goal_terms (gl : goal) : list term :=
   match gl with
   | GUnify a b => [a; b]
   | GCall _ args => args
   | GAssert _ t | GRetract t | GRetractAll t => [t]
+  | GOr a b => flat_map goal_terms a ++ flat_map goal_terms b
+  | GIf c t e => flat_map goal_terms c ++ flat_map goal_terms t ++ flat_map goal_terms e
+  | GFail | GCut | GPop | GCommit => []
   end.
 
 Lemma goal_in_terms (P : nat -> bool) gl : goal_in P gl -> forall t, In t (goal_terms gl) -> tin P t.
 Proof.
-  destruct gl as [a b|nm args|fr t|t|t]; simpl.
-  - intros [A B] t [<-|[<-|[]]]; auto.
-  - intros L t Ht. unfold lin in L. rewrite Forall_forall in L. auto.
-  - intros A x [<-|[]]; auto.
-  - intros A x [<-|[]]; auto.
-  - intros A x [<-|[]]; auto.
+  induction gl as [a b|nm args|fr t|t|t| | |a b IHa IHb|c t e IHc IHt IHe| | ] using goal_ind'; try (simpl; intros _ x Hx; contradiction).
+  - simpl. intros [A B] t [<-|[<-|[]]]; auto.
+  - simpl. intros L t Ht. unfold lin in L. rewrite Forall_forall in L. auto.
+  - simpl. intros A x [<-|[]]; auto.
+  - simpl. intros A x [<-|[]]; auto.
+  - simpl. intros A x [<-|[]]; auto.
+  - rewrite goal_in_or. intros [A B] x Hx. cbn [goal_terms] in Hx. rewrite Forall_forall in *.
+    apply in_app_or in Hx as [Hx|Hx]; apply in_flat_map in Hx as [y [Hy Hx]]; eauto.
+  - rewrite goal_in_if. intros [A [B C]] x Hx. cbn [goal_terms] in Hx. rewrite Forall_forall in *.
+    apply in_app_or in Hx as [Hx|Hx]; [|apply in_app_or in Hx as [Hx|Hx]]; apply in_flat_map in Hx as [y [Hy Hx]]; eauto.
 Qed.
 
 Lemma live_fact_cells F c f : cfg_inv F c -> live_fact c f -> fact_cells F f.
@@ -338,6 +382,27 @@ End Consequences.
 
 (* ------------------------------------------------------------------ adequacy of [visits] *)
 (* the relation is not too small: every solution of a run is a configuration that the run visits *)
+Lemma alt_ans lv (x : res) (f : glob -> res) g' a tr c (s' : store) : alt lv x f = Some (g', a, tr, c) -> In s' a ->
+  (exists g1 a1 t1 c1, x = Some (g1, a1, t1, c1) /\ In s' a1) \/
+  (exists g1 a1 t1 c1 g2 a2 t2 c2, x = Some (g1, a1, t1, c1) /\ lv c1 = None /\ f g1 = Some (g2, a2, t2, c2) /\ In s' a2).
+Proof.
+  unfold alt. destruct x as [[[[g1 a1] t1] c1]|]; [|discriminate].
+  destruct (lv c1) as [c'|] eqn:LV.
+  - intros H Hin. inversion H; subst. left. exists g', a, tr, c1. auto.
+  - destruct (f g1) as [[[[g2 a2] t2] c2]|] eqn:E; [|discriminate]. intros H Hin. inversion H; subst; clear H.
+    apply in_app_or in Hin as [Hin|Hin].
+    + left. exists g1, a1, t1, c1. auto.
+    + right. exists g1, a1, t1, c1, g', a2, t2, c. auto.
+Qed.
+
+Lemma lv_loop_none c : lv_loop c = None -> c = None.
+Proof. destruct c; simpl; [discriminate|reflexivity]. Qed.
+Lemma lv_clause_none c : lv_clause c = None -> c = None.
+Proof. destruct c as [[|j]|]; simpl; try discriminate; reflexivity. Qed.
+
+Lemma tag_some' o x g' a tr c : tag o x = Some (g', a, tr, c) -> exists t0, x = Some (g', a, t0, c).
+Proof. destruct x as [[[[g1 a1] t1] c1]|]; simpl; intros H; inversion H; subst. eauto. Qed.
+
 Section Adequacy.
   Variable uf : nat.
   Variable prog : program.
@@ -345,98 +410,105 @@ Section Adequacy.
   Section LoopsA.
     Variable rec : list goal -> store -> glob -> res.
 
-    Lemma scanq_ans args r s stk : forall l g g' a tr s', scanq uf rec args r s l g = Some (g', a, tr) -> In s' a ->
-      exists c g1 a1 t1, cq uf rec args r s stk l g c /\ rec (cgs c) (cst c) (cg c) = Some (g1, a1, t1) /\ In s' a1.
+    Lemma scanq_ans args r s stk : forall l g g' a tr fl s', scanq uf rec args r s l g = Some (g', a, tr, fl) -> In s' a ->
+      exists c g1 a1 t1 c1, cq uf rec args r s stk l g c /\ rec (cgs c) (cst c) (cg c) = Some (g1, a1, t1, c1) /\ In s' a1.
     Proof.
-      induction l as [|f l IH]; intros g g' a tr s' H Hin; cbn [scanq] in H.
+      induction l as [|f l IH]; intros g g' a tr fl s' H Hin; cbn [scanq] in H.
       - inversion H; subst. contradiction.
       - destruct (answer_match_fast uf s (gn g) args (fargs f)) as [u n1] eqn:M. destruct u as [s1| | |]; try discriminate.
-        + destruct (rec r s1 (set_n g n1)) as [[[g1 a1] t1]|] eqn:ER; [|discriminate]. cbn [bindr] in H.
-          destruct (scanq uf rec args r s l g1) as [[[g2 a2] t2]|] eqn:ES; [|discriminate]. inversion H; subst; clear H.
-          apply in_app_or in Hin as [Hin|Hin].
-          * exists (r, s1, set_n g n1, (args, l) :: stk), g1, a1, t1. split; [eapply cq_here; eauto|]. split; auto.
-          * destruct (IH _ _ _ _ _ ES Hin) as [c [gx [ax [tx [A B]]]]]. exists c, gx, ax, tx. split; auto.
+        + destruct (alt_ans _ _ _ _ H Hin) as [[g1 [a1 [t1 [c1 [E Hi]]]]]|[g1 [a1 [t1 [c1 [g2 [a2 [t2 [c2 [E [LV [ES Hi]]]]]]]]]]]].
+          * apply tag_some' in E as [t0 ER].
+            exists (r, s1, set_n g n1, (args, l) :: stk), g1, a1, t0, c1. split; [eapply cq_here; eauto|]. split; auto.
+          * apply lv_loop_none in LV. subst c1. apply tag_some' in E as [t0 ER].
+            destruct (IH _ _ _ _ _ _ ES Hi) as [c [gx [ax [tx [cx [A B]]]]]]. exists c, gx, ax, tx, cx. split; auto.
             eapply cq_later_ok; eauto.
-        + destruct (IH _ _ _ _ _ H Hin) as [c [gx [ax [tx [A B]]]]]. exists c, gx, ax, tx. split; auto.
+        + destruct (IH _ _ _ _ _ _ H Hin) as [c [gx [ax [tx [cx [A B]]]]]]. exists c, gx, ax, tx, cx. split; auto.
           eapply cq_later_no; eauto.
     Qed.
 
-    Lemma scanr_ans k args r s stk : forall l g g' a tr s', scanr uf rec k args r s l g = Some (g', a, tr) -> In s' a ->
-      exists c g1 a1 t1, cr uf rec k args r s stk l g c /\ rec (cgs c) (cst c) (cg c) = Some (g1, a1, t1) /\ In s' a1.
+    Lemma scanr_ans k args r s stk : forall l g g' a tr fl s', scanr uf rec k args r s l g = Some (g', a, tr, fl) -> In s' a ->
+      exists c g1 a1 t1 c1, cr uf rec k args r s stk l g c /\ rec (cgs c) (cst c) (cg c) = Some (g1, a1, t1, c1) /\ In s' a1.
     Proof.
-      induction l as [|f l IH]; intros g g' a tr s' H Hin; cbn [scanr] in H.
+      induction l as [|f l IH]; intros g g' a tr fl s' H Hin; cbn [scanr] in H.
       - inversion H; subst. contradiction.
       - destruct (answer_match_fast uf s (gn g) args (fargs f)) as [u n1] eqn:M. destruct u as [s1| | |]; try discriminate.
         + destruct (has_id (fid f) (gdb g k)) eqn:HI.
-          * destruct (rec r s1 (mkg (upd k (del_id (fid f) (gdb g k)) (gdb g)) (gid g) n1 (gw g))) as [[[g1 a1] t1]|] eqn:ER; [|discriminate].
-            cbn [bindr] in H.
-            destruct (scanr uf rec k args r s l g1) as [[[g2 a2] t2]|] eqn:ES; [|discriminate]. inversion H; subst; clear H.
-            apply in_app_or in Hin as [Hin|Hin].
-            -- exists (r, s1, mkg (upd k (del_id (fid f) (gdb g k)) (gdb g)) (gid g) n1 (gw g), (args, l) :: stk), g1, a1, t1.
+          * destruct (alt_ans _ _ _ _ H Hin) as [[g1 [a1 [t1 [c1 [E Hi]]]]]|[g1 [a1 [t1 [c1 [g2 [a2 [t2 [c2 [E [LV [ES Hi]]]]]]]]]]]].
+            -- apply tag_some' in E as [t0 ER].
+               exists (r, s1, mkg (upd k (del_id (fid f) (gdb g k)) (gdb g)) (gid g) n1 (gw g), (args, l) :: stk), g1, a1, t0, c1.
                split; [eapply cr_here; eauto|]. split; auto.
-            -- destruct (IH _ _ _ _ _ ES Hin) as [c [gx [ax [tx [A B]]]]]. exists c, gx, ax, tx. split; auto.
+            -- apply lv_loop_none in LV. subst c1. apply tag_some' in E as [t0 ER].
+               destruct (IH _ _ _ _ _ _ ES Hi) as [c [gx [ax [tx [cx [A B]]]]]]. exists c, gx, ax, tx, cx. split; auto.
                eapply cr_later_ok; eauto.
-          * destruct (IH _ _ _ _ _ H Hin) as [c [gx [ax [tx [A B]]]]]. exists c, gx, ax, tx. split; auto.
+          * destruct (IH _ _ _ _ _ _ H Hin) as [c [gx [ax [tx [cx [A B]]]]]]. exists c, gx, ax, tx, cx. split; auto.
             eapply cr_later_gone; eauto.
-        + destruct (IH _ _ _ _ _ H Hin) as [c [gx [ax [tx [A B]]]]]. exists c, gx, ax, tx. split; auto.
+        + destruct (IH _ _ _ _ _ _ H Hin) as [c [gx [ax [tx [cx [A B]]]]]]. exists c, gx, ax, tx, cx. split; auto.
           eapply cr_later_no; eauto.
     Qed.
 
-    Lemma tryclauses_ans args r s stk : forall cls g g' a tr s', tryclauses uf rec args r s cls g = Some (g', a, tr) -> In s' a ->
-      exists c g1 a1 t1, ct uf rec args r s stk cls g c /\ rec (cgs c) (cst c) (cg c) = Some (g1, a1, t1) /\ In s' a1.
+    Lemma tryclauses_ans args r s stk : forall cls g g' a tr fl s', tryclauses uf rec args r s cls g = Some (g', a, tr, fl) -> In s' a ->
+      exists c g1 a1 t1 c1, ct uf rec args r s stk cls g c /\ rec (cgs c) (cst c) (cg c) = Some (g1, a1, t1, c1) /\ In s' a1.
     Proof.
-      induction cls as [|cl cs IH]; intros g g' a tr s' H Hin; cbn [tryclauses] in H.
+      induction cls as [|cl cs IH]; intros g g' a tr fl s' H Hin; cbn [tryclauses] in H.
       - inversion H; subst. contradiction.
       - destruct (unify_arrays_fast uf s args (map (shift (gn g)) (chead cl))) as [s1| | |] eqn:U; try discriminate.
-        + destruct (rec (map (shift_goal (gn g)) (cbody cl) ++ r) s1 (set_n g (gn g + cnv cl))) as [[[g1 a1] t1]|] eqn:ER; [|discriminate].
-          cbn [bindr] in H.
-          destruct (tryclauses uf rec args r s cs g1) as [[[g2 a2] t2]|] eqn:ES; [|discriminate]. inversion H; subst; clear H.
-          apply in_app_or in Hin as [Hin|Hin].
-          * exists (map (shift_goal (gn g)) (cbody cl) ++ r, s1, set_n g (gn g + cnv cl), (args, []) :: stk), g1, a1, t1.
+        + destruct (alt_ans _ _ _ _ H Hin) as [[g1 [a1 [t1 [c1 [ER Hi]]]]]|[g1 [a1 [t1 [c1 [g2 [a2 [t2 [c2 [ER [LV [ES Hi]]]]]]]]]]]].
+          * exists (map (shift_goal (gn g)) (cbody cl) ++ GPop :: r, s1, set_n g (gn g + cnv cl), (args, []) :: stk), g1, a1, t1, c1.
             split; [eapply ct_here; eauto|]. split; auto.
-          * destruct (IH _ _ _ _ _ ES Hin) as [c [gx [ax [tx [A B]]]]]. exists c, gx, ax, tx. split; auto.
+          * apply lv_clause_none in LV. subst c1.
+            destruct (IH _ _ _ _ _ _ ES Hi) as [c [gx [ax [tx [cx [A B]]]]]]. exists c, gx, ax, tx, cx. split; auto.
             eapply ct_later_ok; eauto.
-        + destruct (IH _ _ _ _ _ H Hin) as [c [gx [ax [tx [A B]]]]]. exists c, gx, ax, tx. split; auto.
+        + destruct (IH _ _ _ _ _ _ H Hin) as [c [gx [ax [tx [cx [A B]]]]]]. exists c, gx, ax, tx, cx. split; auto.
           eapply ct_later_no; eauto.
     Qed.
   End LoopsA.
 
-  Theorem visits_answers : forall n gs s g g' a tr stk s', solve uf prog n gs s g = Some (g', a, tr) -> In s' a ->
+  Lemma mapflag_some' fl x g' a tr c : mapflag fl x = Some (g', a, tr, c) -> exists c0, x = Some (g', a, tr, c0).
+  Proof. destruct x as [[[[g1 a1] t1] c1]|]; simpl; intros H; inversion H; subst. eauto. Qed.
+
+  Theorem visits_answers : forall n gs s g g' a tr fl stk s', solve uf prog n gs s g = Some (g', a, tr, fl) -> In s' a ->
     exists g'' stk', visits uf prog n (gs, s, g, stk) ([], s', g'', stk').
   Proof.
-    induction n as [|n IH]; intros gs s g g' a tr stk s' H Hin; [discriminate|].
+    induction n as [|n IH]; intros gs s g g' a tr fl stk s' H Hin; [discriminate|].
     cbn [solve] in H. destruct (gw g) as [|w] eqn:Ew; [discriminate|]. cbn [gdb gid gn gw] in H. fold (tick g w) in H.
-    assert (Sub: forall c g1 a1 t1, calls uf prog n (gs, s, g, stk) c -> solve uf prog n (cgs c) (cst c) (cg c) = Some (g1, a1, t1) ->
+    assert (Sub: forall c g1 a1 t1 c1, calls uf prog n (gs, s, g, stk) c -> solve uf prog n (cgs c) (cst c) (cg c) = Some (g1, a1, t1, c1) ->
                  In s' a1 -> exists g'' stk', visits uf prog (S n) (gs, s, g, stk) ([], s', g'', stk')).
-    { intros [[[gs1 s1] gg1] stk1] g1 a1 t1 Hc Hs Hi. unfold cgs, cst, cg in Hs; simpl in Hs.
-      destruct (IH _ _ _ _ _ _ stk1 s' Hs Hi) as [g'' [stk' V]]. exists g'', stk'. eapply v_call; eauto. }
-    destruct gs as [|[x y|name args|front t|t|t] r].
+    { intros [[[gs1 s1] gg1] stk1] g1 a1 t1 c1 Hc Hs Hi. unfold cgs, cst, cg in Hs; simpl in Hs.
+      destruct (IH _ _ _ _ _ _ _ stk1 s' Hs Hi) as [g'' [stk' V]]. exists g'', stk'. eapply v_call; eauto. }
+    destruct gs as [|[x y|name args|front t|t|t| | |ga gb|gc gt ge| | ] r].
     - inversion H; subst a. simpl in Hin. destruct Hin as [E|[]]. subst s'. exists g, stk. apply v_here.
     - destruct (unify_fast uf s x y) as [s1| | |] eqn:U; try discriminate.
       + eapply (Sub (r, s1, tick g w, stk)); [eapply c_unify; eauto|exact H|exact Hin].
       + inversion H; subst. contradiction.
-    - destruct (scanq uf (solve uf prog n) args r s (gdb g (name, length args)) (tick g w)) as [[[g1 a1] t1]|] eqn:ES; [|discriminate].
-      cbn [bindr] in H.
-      destruct (tryclauses uf (solve uf prog n) args r s (clauses_of prog name (length args)) g1) as [[[g2 a2] t2]|] eqn:ET; [|discriminate].
-      inversion H; subst; clear H. apply in_app_or in Hin as [Hin|Hin].
-      + destruct (@scanq_ans _ args r s stk _ _ _ _ _ s' ES Hin) as [c [gx [ax [tx [A [B C]]]]]].
+    - destruct (alt_ans _ _ _ _ H Hin) as [[g1 [a1 [t1 [c1 [ES Hi]]]]]|[g1 [a1 [t1 [c1 [g2 [a2 [t2 [c2 [ES [LV [ET Hi]]]]]]]]]]]].
+      + destruct (@scanq_ans _ args r s stk _ _ _ _ _ _ s' ES Hi) as [c [gx [ax [tx [cx [A [B C]]]]]]].
         eapply (Sub c); [eapply c_call_facts; eauto|exact B|exact C].
-      + destruct (@tryclauses_ans _ args r s stk _ _ _ _ _ s' ET Hin) as [c [gx [ax [tx [A [B C]]]]]].
+      + apply lv_loop_none in LV. subst c1.
+        destruct (@tryclauses_ans _ args r s stk _ _ _ _ _ _ s' ET Hi) as [c [gx [ax [tx [cx [A [B C]]]]]]].
         eapply (Sub c); [eapply c_call_clauses; eauto|exact B|exact C].
     - destruct (callable (den_fast s t)) as [[name args]|] eqn:CA.
       + destruct (answer_init_fast s args (gn g)) as [stored n1] eqn:AI.
-        match type of H with match ?X with _ => _ end = _ => destruct X as [[[g1 a1] t1]|] eqn:E; [|discriminate] end.
-        inversion H; subst; clear H.
+        apply tag_some' in H as [t0 E].
         eapply (Sub (r, s, _, stk)); [eapply c_assert; eauto|exact E|exact Hin].
       + eapply (Sub (r, s, tick g w, stk)); [eapply c_assert_skip; eauto|exact H|exact Hin].
     - destruct (callable (den_fast s t)) as [[name args]|] eqn:CA.
-      + destruct (@scanr_ans _ (name, length args) args r s stk _ _ _ _ _ s' H Hin) as [c [gx [ax [tx [A [B C]]]]]].
+      + destruct (@scanr_ans _ (name, length args) args r s stk _ _ _ _ _ _ s' H Hin) as [c [gx [ax [tx [cx [A [B C]]]]]]].
         eapply (Sub c); [eapply c_retract; eauto|exact B|exact C].
       + inversion H; subst. contradiction.
     - destruct (callable (den_fast s t)) as [[name args]|] eqn:CA; [|inversion H; subst; contradiction].
       destruct (rallh uf s args (gdb g (name, length args)) (gn g)) as [[[keep gone] n1]|] eqn:RA; [|discriminate].
-      match type of H with match ?X with _ => _ end = _ => destruct X as [[[g1 a1] t1]|] eqn:E; [|discriminate] end.
-      inversion H; subst; clear H.
+      apply tag_some' in H as [t0 E].
       eapply (Sub (r, s, _, stk)); [eapply c_retractall; eauto|exact E|exact Hin].
+    - inversion H; subst. contradiction.
+    - apply mapflag_some' in H as [c0 E]. eapply (Sub (r, s, tick g w, stk)); [eapply c_cut; eauto|exact E|exact Hin].
+    - destruct (alt_ans _ _ _ _ H Hin) as [[g1 [a1 [t1 [c1 [E Hi]]]]]|[g1 [a1 [t1 [c1 [g2 [a2 [t2 [c2 [E [LV [E2 Hi]]]]]]]]]]]].
+      + eapply (Sub (ga ++ r, s, tick g w, stk)); [eapply c_or_left; eauto|exact E|exact Hi].
+      + apply lv_loop_none in LV. subst c1.
+        eapply (Sub (gb ++ r, s, g1, stk)); [eapply c_or_right; eauto|exact E2|exact Hi].
+    - destruct (alt_ans _ _ _ _ H Hin) as [[g1 [a1 [t1 [c1 [E Hi]]]]]|[g1 [a1 [t1 [c1 [g2 [a2 [t2 [c2 [E [LV [E2 Hi]]]]]]]]]]]].
+      + eapply (Sub (gc ++ GCommit :: gt ++ r, s, tick g w, stk)); [eapply c_if_cond; eauto|exact E|exact Hi].
+      + eapply (Sub (ge ++ r, s, g1, stk)); [eapply c_if_else; eauto|exact E2|exact Hi].
+    - apply mapflag_some' in H as [c0 E]. eapply (Sub (r, s, tick g w, stk)); [eapply c_pop; eauto|exact E|exact Hin].
+    - apply mapflag_some' in H as [c0 E]. eapply (Sub (r, s, tick g w, stk)); [eapply c_commit; eauto|exact E|exact Hin].
   Qed.
 End Adequacy.
